@@ -15,7 +15,8 @@ class Undecided(Exception):
 
 class Part:
     """one function body to extract"""
-    def __init__(self, header, scopes, anchor, nth=0, expect_anchors=None, xform=None, tag=None, init_list=False):
+    def __init__(self, header, scopes, anchor, nth=0, expect_anchors=None, xform=None, tag=None, init_list=False, member_init=None):
+        self.member_init = member_init   # not a function: the default member initialiser `T name{...};` of the class in `scopes` (MEMBERINIT rule)
         self.init_list = init_list    # constructor: the member initialiser list `: m(e), n(f)` becomes `m = e; n = f;` in front of the body (INITLIST rule)
         self.header, self.scopes, self.anchor, self.nth = header, scopes, anchor, nth
         self.expect_anchors, self.xform, self.tag = expect_anchors, xform, tag
@@ -105,7 +106,39 @@ def header_tokens(rel):
         _header_cache[key] = cxx2c.rule_ns(cxx2c.tokenize(txt), cxx2c.Fired())   # NS rule applied header-wide (anchors too)
     return _header_cache[key]
 
+def extract_member_init(part, F, default_xform):
+    tk = header_tokens(part.header)
+    s, e = 0, len(tk)
+    for sc in part.scopes:
+        o, c = cxx2c.find_scope(tk, toks(sc), s, e, 0)
+        s, e = o + 1, c
+    name = part.member_init
+    hits = []; d = 0
+    for i in range(s, e - 1):
+        if tk[i] == '{':
+            if d == 0 and i > s and tk[i - 1] == name: hits.append(i - 1)
+            d += 1
+        elif tk[i] == '}': d -= 1
+        elif d == 0 and tk[i] == name and tk[i + 1] == '=': hits.append(i)
+    if len(hits) != 1: raise Drift("member initialiser of %s not found exactly once (%d)" % (name, len(hits)))
+    i = hits[0]
+    if tk[i + 1] == '{':
+        c = cxx2c.match_close(tk, i + 1); inner = tk[i + 2:c]
+    else:
+        c = i + 2
+        while tk[c] != ';': c += 1
+        inner = tk[i + 2:c]
+    L = tk[i].line
+    if inner: body = [T('MEMBER_INIT', L), T('(', L), T(name, L), T(',', L)] + list(inner) + [T(')', L), T(';', L)]
+    else: body = [T('MEMBER_INIT_ZERO', L), T('(', L), T(name, L), T(')', L), T(';', L)]
+    F.hit('MEMBERINIT')
+    xf = part.xform or default_xform
+    out = xf(list(body), F) if xf else body
+    info = dict(header='include/boost/msm/' + part.header, first_line=L, last_line=tk[c].line, body_tokens=len(inner), body_sha256=cxx2c.sha(inner), verbatim_ratio=1.0)
+    return out, info
+
 def extract_part(part, F, default_xform):
+    if part.member_init: return extract_member_init(part, F, default_xform)
     tk = header_tokens(part.header)
     o, c, n_anchor = cxx2c.locate(tk, part.scopes, part.anchor, part.nth)
     if part.expect_anchors is not None and n_anchor != part.expect_anchors:
